@@ -285,6 +285,23 @@ Proof.
   rewrite (scan_auth_map (age a)); [reflexivity|intros r; split; reflexivity].
 Qed.
 
+(* the class is decided by the extended rcode (T1: validity matches on msg.opt_rcode()) *)
+Lemma gen_uses_opt_rcode : validity_uses_opt_rcode = true. Proof. reflexivity. Qed.
+Lemma gen_opt_shift : opt_rcode_shift = 4. Proof. reflexivity. Qed.
+Lemma class_rcode_is_opt m : class_rcode m = opt_rcode m.
+Proof. unfold class_rcode. rewrite gen_uses_opt_rcode. reflexivity. Qed.
+
+Lemma first_opt_age a l : first_opt (map (age_opt a) l) = first_opt l.
+Proof.
+  unfold first_opt. induction l as [|r t IH]; [reflexivity|]. cbn [map find].
+  unfold age_opt at 1 2. destruct (r_type r =? rtype_opt) eqn:E; cbn [negb].
+  - rewrite E. reflexivity.
+  - cbn [age r_type]. rewrite E. exact IH.
+Qed.
+
+Lemma opt_rcode_aged a c m : opt_rcode (aged_msg a c m) = opt_rcode m.
+Proof. unfold opt_rcode. cbn [aged_msg m_ar m_rcode]. rewrite first_opt_age. reflexivity. Qed.
+
 (* the bound that applies to a served answer, read off the answer itself *)
 Definition within (elapsed_ms bound_s : N) : Prop := elapsed_ms <= bound_s * 1000.
 
@@ -297,11 +314,11 @@ Definition fresh_by_class (cfg : config) (e : N) (u0 r : resp) : Prop :=
       end
   | RMsg m =>
       within e (c_maxv cfg) /\
-      (m_rcode m = 3 -> within e (c_nx cfg)) /\
-      (m_rcode m <> 0 -> m_rcode m <> 3 -> within e (c_misc cfg)) /\
-      (m_rcode m = 0 -> classify_no_error m = Ok NoData -> within e (c_nodata cfg)) /\
-      (m_rcode m = 0 -> classify_no_error m = Ok Delegation -> within e (c_deleg cfg)) /\
-      (m_rcode m = 0 -> classify_no_error m = Ok Weird -> e = 0) /\
+      (opt_rcode m = 3 -> within e (c_nx cfg)) /\
+      (opt_rcode m <> 0 -> opt_rcode m <> 3 -> within e (c_misc cfg)) /\
+      (opt_rcode m = 0 -> classify_no_error m = Ok NoData -> within e (c_nodata cfg)) /\
+      (opt_rcode m = 0 -> classify_no_error m = Ok Delegation -> within e (c_deleg cfg)) /\
+      (opt_rcode m = 0 -> classify_no_error m = Ok Weird -> e = 0) /\
       (m_tc m = true -> c_trunc cfg = false -> e = 0) /\
       (* no record is served beyond its own TTL: its original TTL is what is
          left plus the whole seconds spent in the cache *)
@@ -310,15 +327,15 @@ Definition fresh_by_class (cfg : config) (e : N) (u0 r : resp) : Prop :=
 
 Lemma class_cap_spec cfg m cap : class_cap cfg m = Ok cap ->
   cap <= c_maxv cfg /\
-  (m_rcode m = 3 -> cap <= c_nx cfg) /\
-  (m_rcode m <> 0 -> m_rcode m <> 3 -> cap <= c_misc cfg) /\
-  (m_rcode m = 0 -> classify_no_error m = Ok NoData -> cap <= c_nodata cfg) /\
-  (m_rcode m = 0 -> classify_no_error m = Ok Delegation -> cap <= c_deleg cfg) /\
-  (m_rcode m = 0 -> classify_no_error m = Ok Weird -> cap = 0).
+  (opt_rcode m = 3 -> cap <= c_nx cfg) /\
+  (opt_rcode m <> 0 -> opt_rcode m <> 3 -> cap <= c_misc cfg) /\
+  (opt_rcode m = 0 -> classify_no_error m = Ok NoData -> cap <= c_nodata cfg) /\
+  (opt_rcode m = 0 -> classify_no_error m = Ok Delegation -> cap <= c_deleg cfg) /\
+  (opt_rcode m = 0 -> classify_no_error m = Ok Weird -> cap = 0).
 Proof.
   intros H. split; [eapply class_cap_le_maxv; exact H|]. revert H.
-  unfold class_cap. rewrite gen_cap_base, gen_cap_nodata, gen_cap_deleg, gen_cap_nx, gen_cap_misc.
-  destruct (m_rcode m) as [|p] eqn:RC.
+  unfold class_cap. rewrite gen_cap_base, gen_cap_nodata, gen_cap_deleg, gen_cap_nx, gen_cap_misc, class_rcode_is_opt.
+  destruct (opt_rcode m) as [|p] eqn:RC.
   - destruct (classify_no_error m) as [cl| | |]; cbn [bind]; try discriminate.
     intros [= <-]. repeat split; try discriminate; try congruence; intros _ [= ->]; lia.
   - destruct p as [[]|[]|]; intros [= <-]; repeat split; try discriminate; try congruence; intros; lia.
@@ -350,7 +367,7 @@ Proof.
   - destruct (elapsed_secs_bound cfg x m0 val _ C V E) as [Hs Hle]. rewrite Hs in *.
     specialize (B _ eq_refl). apply not_expired_le in E. set (e := now - t0) in *.
     cbn [xform_resp map_resp] in V.
-    rewrite classify_aged. cbn [aged_msg m_rcode m_tc].
+    rewrite classify_aged, opt_rcode_aged. cbn [aged_msg m_tc].
     destruct (validity_msg_bound _ _ _ V) as [Bt Bc].
     assert (Hcnt : forall y, counted (aged_msg (e / 1000) qc (xform x m0)) y -> within e (r_ttl y + e / 1000)).
     { intros y Hy. unfold within.
@@ -366,7 +383,7 @@ Proof.
     destruct Bc as [->|(cap & Hc & Hle2)].
     + assert (e = 0) by lia. unfold within. repeat split; intros; lia.
     + destruct (class_cap_spec _ _ _ Hc) as (H1 & H2 & H3 & H4 & H5 & H6).
-      cbn [xform m_rcode] in *.
+
       unfold within. repeat split.
       * lia.
       * intros Hr; specialize (H2 Hr); lia.
@@ -475,7 +492,7 @@ Proof.
   intros H. destruct u as [m|e]; [|cbn; eauto].
   unfold validity. destruct (m_tc m && negb (c_trunc cfg)); [eauto|].
   destruct (m_broken m); [right; reflexivity|]. left.
-  unfold class_cap. destruct (m_rcode m) as [|p].
+  unfold class_cap. destruct (class_rcode m) as [|p].
   - unfold classify_no_error. destruct (m_q m) as [[qt qc]|] eqn:Q.
     + destruct (existsb _ (m_an m)); cbn [bind]; eauto.
     + destruct classify_expects_question; [|cbn [bind]; eauto].
@@ -695,4 +712,148 @@ Proof.
     destruct (validity_msg_bound _ _ _ V) as [Bt _]. specialize (Bt _ Hx).
     pose proof (cast_secs_le (v_valid v * 1000)). lia. }
   destruct (decrement_cases _ _ qc Hd) as [[-> _]|[-> _]]; cbn [bind]; eauto.
+Qed.
+
+(* ---------- 7. extended rcodes, CD, request serialisation ----------------------------------------------- *)
+(* BADVERS (16), BADMODE (19), 0x123, ...: whatever the low nibble says, an
+   extended rcode is a "misc error" and is kept for at most misc_error_duration *)
+Lemma extended_rcode_is_misc cfg m : 16 <= opt_rcode m ->
+  class_cap cfg m = Ok (N.min (c_maxv cfg) (c_misc cfg)).
+Proof.
+  intros H. unfold class_cap. rewrite gen_cap_base, gen_cap_misc, class_rcode_is_opt.
+  destruct (opt_rcode m) as [|p]; [lia|].
+  destruct p as [[p|p|]|[p|p|]|]; try reflexivity; lia.
+Qed.
+
+Lemma extended_rcode_validity cfg m v : 16 <= opt_rcode m ->
+  validity cfg (RMsg m) = Ok v -> v <= c_misc cfg.
+Proof.
+  intros H V. destruct (validity_msg_bound _ _ _ V) as [_ [->|(cap & C & L)]]; [lia|].
+  rewrite (extended_rcode_is_misc cfg m H) in C. injection C as <-. lia.
+Qed.
+
+Lemma extended_rcode_both cfg m v : 16 <= opt_rcode m ->
+  class_cap cfg m = Ok (N.min (c_maxv cfg) (c_misc cfg)) /\
+  (validity cfg (RMsg m) = Ok v -> v <= c_misc cfg).
+Proof. intros H. split; [exact (extended_rcode_is_misc cfg m H)|exact (extended_rcode_validity cfg m v H)]. Qed.
+
+(* the high bits sit in the OPT record: a NOERROR / NXDOMAIN header with an
+   OPT ext-rcode octet e > 0 is an extended rcode *)
+Lemma opt_rcode_high m o : first_opt (m_ar m) = Some o -> r_bad o = false -> 2 ^ 24 <= r_ttl o ->
+  16 <= opt_rcode m.
+Proof.
+  intros F B H. unfold opt_rcode. rewrite F, B, gen_opt_shift.
+  assert (1 <= r_ttl o / 2 ^ 24) by (apply N.div_le_lower_bound; lia). lia.
+Qed.
+
+Example ex_badvers :
+  c20_run config_default
+    [EQuery (mkKey 1 1 1 AdDo_None false true) 0 1 0 0
+       (RMsg (mkMsg 9 0 false false true false (Some (1, 1)) 1 [mkRR 1 1 600 1 false] []
+                    [mkRR 41 1232 16777216 2 false] false));
+     EQuery (mkKey 1 1 1 AdDo_None false true) 0 1 30000 0 (RErr 1);
+     EQuery (mkKey 1 1 1 AdDo_None false true) 0 1 30001 0 (RErr 1)]
+  = Ok [OForwarded;
+        OServed (RMsg (mkMsg 9 0 false false true false (Some (1, 1)) 1 [mkRR 1 1 570 1 false] []
+                    [mkRR 41 1232 16777216 2 false] false));
+        OForwarded].
+Proof. vm_compute. reflexivity. Qed.
+
+(* CD partitions the cache, DO is only satisfied from DO *)
+Lemma same_cd_compatible_do cfg evs st os ev k now qc st' r :
+  request_of ev = Some (k, now, qc) ->
+  run cfg state_init evs = Ok (st, os) ->
+  step cfg st ev = Ok (st', OServed r) ->
+  exists k0 t0 u0, logged evs os (k0, t0, u0) /\ same_question k0 k /\ derives u0 r /\
+    k_cd k0 = k_cd k /\ (k_addo k = AdDo_Do -> k_addo k0 = AdDo_Do).
+Proof.
+  intros Hq R S. destruct (served_was_received cfg evs st os ev k now qc st' r Hq R S)
+    as (k0 & t0 & u0 & L & Q & (F1 & _ & F3 & _) & D).
+  exists k0, t0, u0. auto.
+Qed.
+
+(* Key::new: every component of the request is in the key *)
+Lemma key_of_request_fields name cls ty rd cd ad dnssec_ok :
+  let k := key_of_request name cls ty rd cd ad dnssec_ok in
+  k_name k = name /\ k_class k = cls /\ k_type k = ty /\ k_cd k = cd /\ k_rd k = rd /\
+  k_addo k = (if dnssec_ok then AdDo_Do else if ad then AdDo_Ad else AdDo_None).
+Proof. destruct rd, cd, ad, dnssec_ok; cbn; auto 10. Qed.
+
+(* RequestMessage: one serialisation, the base message's OPT record never
+   reaches the key or the wire *)
+Lemma gen_request_paths : request_one_serialisation = true /\ request_base_opt_dropped = true.
+Proof. split; reflexivity. Qed.
+
+Lemma base_opt_ignored name cls ty rd cd ad b b' own :
+  key_of_request_msg name cls ty rd cd ad b own = key_of_request_msg name cls ty rd cd ad b' own /\
+  (own = None -> k_addo (key_of_request_msg name cls ty rd cd ad b own) <> AdDo_Do).
+Proof.
+  split; [reflexivity|]. intros ->. unfold key_of_request_msg, request_do, key_of_request. cbn.
+  destruct ad; discriminate.
+Qed.
+
+(* ---------- 8. interleavings inside one lookup cascade ------------------------------------------------------ *)
+(* Between two awaits on the store other requests may read, insert and evict.
+   Safety does not depend on the cascade being atomic: (1) whatever is read
+   from the store has provenance; (2) provenance survives growth of the log;
+   (3) each of the three rewrites turns provenance for the alternate key into
+   provenance for the query key, whatever the store looks like by then;
+   (4) inserting a value with provenance, at any later time, keeps the store
+   invariant; (5) a response prepared from any value with provenance is
+   explained by a logged upstream answer and is fresh for that value. *)
+Lemma prov_incl cfg L L' k v : incl L L' -> prov cfg L k v -> prov cfg L' k v.
+Proof.
+  intros H (k0 & t0 & u0 & x & Hin & R). exists k0, t0, u0, x. split; [apply H; exact Hin|exact R].
+Qed.
+
+Lemma value_served cfg L k v now qc r :
+  prov cfg L k v -> get_response v now qc = Some (Ok r) ->
+  exists k0 t0 u0,
+    In (k0, t0, u0) L /\ same_question k0 k /\ flags_compatible k0 k /\ derives u0 r /\
+    v_created v = t0 /\ now - t0 <= v_valid v * 1000.
+Proof.
+  intros (k0 & t0 & u0 & x & Hin & Hc & Hr & Hk & Hv). unfold get_response, elapsed_ms.
+  destruct (expired (now - v_created v) (v_valid v)) eqn:E; [discriminate|].
+  intros [= D]. apply decrement_ok in D. destruct D as (-> & _).
+  exists k0, t0, u0. destruct (compat_question _ _ _ _ Hk) as [Q F].
+  rewrite Hr. subst t0. apply not_expired_le in E.
+  repeat (split; [assumption|]). split; [apply derives_aged|]. split; [reflexivity|exact E].
+Qed.
+
+Lemma interleaved_cascade_safe cfg :
+  (forall st k v, inv cfg st -> cget k (s_cache st) = Some v -> prov cfg (s_log st) k v) /\
+  (forall L L' k v, incl L L' -> prov cfg L k v -> prov cfg L' k v) /\
+  (forall L k v v', k_addo k = AdDo_None -> prov cfg L (key_set_addo k AdDo_Ad) v ->
+     update_message cfg v m_ad (pure (msg_set_ad false)) = Ok v' -> prov cfg L k v') /\
+  (forall L k v v', k_addo k <> AdDo_Do -> is_dnssec (k_type k) = false ->
+     prov cfg L (key_set_addo k AdDo_Do) v ->
+     update_message cfg v (fun _ => true) (remove_dnssec_o (addo_ad (k_addo k))) = Ok v' -> prov cfg L k v') /\
+  (forall L k v v', k_rd k = false -> prov cfg L (key_set_rd k true) v ->
+     update_message cfg v (fun _ => true) (pure (msg_set_rd false)) = Ok v' -> prov cfg L k v') /\
+  (forall st k v c', inv cfg st -> prov cfg (s_log st) k v ->
+     cache_insert cfg k v (s_cache st) = Ok c' -> inv cfg (mkState c' (s_log st))) /\
+  (forall L k v now qc r, prov cfg L k v -> get_response v now qc = Some (Ok r) ->
+     exists k0 t0 u0, In (k0, t0, u0) L /\ same_question k0 k /\ flags_compatible k0 k /\ derives u0 r /\
+       v_created v = t0 /\ now - t0 <= v_valid v * 1000).
+Proof.
+  split; [intros st k v I G; apply I, cget_In, G|].
+  split; [intros L L' k v; apply prov_incl|].
+  split.
+  { intros L k v v' Ha P U.
+    destruct (update_message_spec cfg v m_ad _ (msg_set_ad false) v' (prov_valid _ _ _ _ P)
+                (pure_spec _) (fun m => set_ad_noop m) U) as (C' & R' & V').
+    apply (prov_ad_step cfg L k v v'); assumption. }
+  split.
+  { intros L k v v' Ha Hd P U.
+    destruct (update_message_spec cfg v _ _ (remove_dnssec (addo_ad (k_addo k))) v' (prov_valid _ _ _ _ P)
+               (strip_spec _) (fun m (H : true = false) => False_ind _ (diff_true_false H)) U) as (C' & R' & V').
+    apply (prov_do_step cfg L k v v'); assumption. }
+  split.
+  { intros L k v v' Ha P U.
+    destruct (update_message_spec cfg v _ _ (msg_set_rd false) v' (prov_valid _ _ _ _ P)
+               (pure_spec _) (fun m (H : true = false) => False_ind _ (diff_true_false H)) U) as (C' & R' & V').
+    apply (prov_rd_step cfg L k v v'); assumption. }
+  split.
+  { intros st k v c' I P CI. unfold inv; cbn [s_cache s_log]. eapply cache_insert_inv; eassumption. }
+  intros L k v now qc r. apply value_served.
 Qed.
